@@ -10,6 +10,12 @@
 //! * table cases (from TLC): builder field-presence subsets for BOLT-11 invoices and BOLT-12
 //!   offers / refunds; round trips; single-character / recomputed-checksum mutations (BOLT-11)
 //!   and single-bit mutations of signed TLV streams (BOLT-12).
+//! * numeric boundary cases (from TLC, fmt n11 / n12 / i12): the numbers of PayReq.tla part (iii)
+//!   (timestamp, expiry, cltv delta, amount, description length; BOLT-12 amount, quantity,
+//!   absolute expiry, created_at, relative expiry) through the builders -- the answer, accepted or
+//!   refused, is recorded with the numbers -- and through strings / TLV streams assembled by hand
+//!   (own base-32 / TLV writer, own signature, recomputed bech32 checksum), parsed under
+//!   catch_unwind; what the accessors expose is recorded for the spec to compare.
 //! * fuzz: arbitrary strings and byte streams into every parser.
 //!
 //! usage: payreq --out TRACE [--scripts FILE] [--cases FILE] [--seed S] [--muts K] [--full N]
@@ -36,7 +42,7 @@ use lightning::types::features::BlindedHopFeatures;
 use lightning::types::payment::PaymentHash;
 use lightning::util::ser::Writeable;
 use lightning_invoice::{
-	Bolt11Invoice, Bolt11InvoiceDescription, Currency, Description, Fallback, InvoiceBuilder,
+	Bolt11Invoice, Bolt11InvoiceDescription, Bolt11InvoiceDescriptionRef, Currency, Description, Fallback, InvoiceBuilder,
 	PaymentSecret, RouteHint, RouteHintHop, RoutingFees, Sha256, SignedRawBolt11Invoice,
 	MAX_TIMESTAMP,
 };
@@ -75,6 +81,17 @@ fn rand_sk(rng: &mut StdRng) -> SecretKey {
 
 fn rand_pk(rng: &mut StdRng, secp: &Secp) -> PublicKey {
 	PublicKey::from_secret_key(secp, &rand_sk(rng))
+}
+
+/// a value of a fixed-width numeric field: its boundaries as often as an arbitrary value
+fn edge(rng: &mut StdRng, max: u64) -> u64 {
+	match rng.gen_range(0..6) {
+		0 => 0,
+		1 => 1,
+		2 => max - 1,
+		3 => max,
+		_ => rng.gen_range(0..=max),
+	}
 }
 
 fn rand_text(rng: &mut StdRng, max: usize) -> String {
@@ -143,9 +160,9 @@ fn pay_paths(rng: &mut StdRng, secp: &Secp, n: usize) -> Vec<BlindedPaymentPath>
 				rand_pk(rng, secp),
 				hops,
 				BlindedPayInfo {
-					fee_base_msat: rng.gen(),
-					fee_proportional_millionths: rng.gen(),
-					cltv_expiry_delta: rng.gen(),
+					fee_base_msat: edge(rng, u32::MAX as u64) as u32,
+					fee_proportional_millionths: edge(rng, u32::MAX as u64) as u32,
+					cltv_expiry_delta: edge(rng, u16::MAX as u64) as u16,
 					htlc_minimum_msat: rng.gen_range(0..1000),
 					htlc_maximum_msat: rng.gen_range(1_000_000..u64::MAX / 2),
 					features: BlindedHopFeatures::empty(),
@@ -1181,7 +1198,79 @@ fn bech32_split(s: &str) -> Option<(String, Vec<u8>)> {
 // ------------------------------------------------------------------------------------------------
 // part (ii): BOLT-11
 
-fn build_b11(p: &Value, rng: &mut StdRng, secp: &Secp) -> Result<Bolt11Invoice, String> {
+/// The numeric builder inputs of one BOLT-11 invoice (spec/PayReq.tla part (iii)); wide enough
+/// for the values a string can spell but the builder's `u64` arguments cannot.
+#[derive(Clone, Debug, PartialEq)]
+struct B11Vals {
+	ts: u128,
+	expiry: Option<u128>,
+	cltv: u128,
+	amt: Option<u128>, // msat
+	desc: i64,         // byte length of the description; -1: description hash
+}
+
+const E9: u128 = 1_000_000_000;
+/// numbers travel as three base-10^9 limbs, most significant first (TLC integers have 32 bits)
+fn num_json(v: u128) -> Value {
+	json!([(v / (E9 * E9)) as u64, ((v / E9) % E9) as u64, (v % E9) as u64])
+}
+fn opt_json(v: Option<u128>) -> Value {
+	v.map_or(json!([]), num_json)
+}
+fn json_num(v: &Value) -> Option<u128> {
+	let a = v.as_array()?;
+	if a.len() != 3 {
+		return None;
+	}
+	Some(a[0].as_u64()? as u128 * E9 * E9 + a[1].as_u64()? as u128 * E9 + a[2].as_u64()? as u128)
+}
+impl B11Vals {
+	fn json(&self) -> Value {
+		json!({"ts": num_json(self.ts), "expiry": opt_json(self.expiry), "cltv": num_json(self.cltv),
+			"amt": opt_json(self.amt), "desc": self.desc})
+	}
+	fn from_json(v: &Value) -> B11Vals {
+		B11Vals {
+			ts: json_num(&v["ts"]).unwrap(),
+			expiry: json_num(&v["expiry"]),
+			cltv: json_num(&v["cltv"]).unwrap(),
+			amt: json_num(&v["amt"]),
+			desc: v["desc"].as_i64().unwrap(),
+		}
+	}
+	fn fits_builder(&self) -> bool {
+		let m = u64::MAX as u128;
+		self.ts <= m && self.cltv <= m && self.expiry.map_or(true, |x| x <= m) && self.amt.map_or(true, |x| x <= m)
+	}
+	/// what the accessors of an invoice say
+	fn exposed_by(i: &Bolt11Invoice) -> B11Vals {
+		let raw = i.clone().into_signed_raw();
+		B11Vals {
+			ts: i.duration_since_epoch().as_secs() as u128,
+			expiry: raw.raw_invoice().expiry_time().map(|x| x.as_seconds() as u128),
+			cltv: i.min_final_cltv_expiry_delta() as u128,
+			amt: i.amount_milli_satoshis().map(|x| x as u128),
+			desc: match i.description() {
+				Bolt11InvoiceDescriptionRef::Direct(d) => d.as_inner().0.len() as i64,
+				Bolt11InvoiceDescriptionRef::Hash(_) => -1,
+			},
+		}
+	}
+}
+
+/// Builds one invoice with the presence subset `p`.  `given`: the numbers to use (boundary cases
+/// from TLC); otherwise seeded ones.  Returns the numbers that went in and the builder's answer.
+fn build_b11(
+	p: &Value, given: Option<&B11Vals>, rng: &mut StdRng, secp: &Secp,
+) -> (B11Vals, Result<Bolt11Invoice, String>) {
+	let mut used = B11Vals { ts: 0, expiry: None, cltv: 0, amt: None, desc: 0 };
+	let r = build_b11_inner(p, given, &mut used, rng, secp);
+	(used, r)
+}
+
+fn build_b11_inner(
+	p: &Value, given: Option<&B11Vals>, used: &mut B11Vals, rng: &mut StdRng, secp: &Secp,
+) -> Result<Bolt11Invoice, String> {
 	let e = |e| format!("{:?}", e);
 	let sk = rand_sk(rng);
 	let pk = PublicKey::from_secret_key(secp, &sk);
@@ -1195,18 +1284,6 @@ fn build_b11(p: &Value, rng: &mut StdRng, secp: &Secp) -> Result<Bolt11Invoice, 
 	.choose(rng)
 	.unwrap()
 	.clone();
-	let desc = match p["desc"].as_str().unwrap() {
-		"direct" => {
-			let n = *[1usize, 5, 40, 200, 639].choose(rng).unwrap();
-			let mut t = rand_text(rng, n);
-			while t.len() > 639 {
-				t.pop();
-			}
-			Bolt11InvoiceDescription::Direct(Description::new(t).map_err(e)?)
-		},
-		"empty" => Bolt11InvoiceDescription::Direct(Description::empty()),
-		_ => Bolt11InvoiceDescription::Hash(Sha256(sha256::Hash::hash(&r32(rng)))),
-	};
 	let ts = match rng.gen_range(0..6) {
 		0 => 0,
 		1 => 1,
@@ -1214,12 +1291,53 @@ fn build_b11(p: &Value, rng: &mut StdRng, secp: &Secp) -> Result<Bolt11Invoice, 
 		3 => 1_700_000_000,
 		_ => rng.gen_range(0..=MAX_TIMESTAMP),
 	};
+	let ts = given.map_or(ts, |g| g.ts as u64);
 	let cltv = match rng.gen_range(0..6) {
 		0 => 0,
 		1 => 18,
 		2 => u16::MAX as u64,
 		3 => u64::MAX,
 		_ => rng.gen_range(1..5000),
+	};
+	let cltv = given.map_or(cltv, |g| g.cltv as u64);
+	used.ts = ts as u128;
+	used.cltv = cltv as u128;
+	let text = match (given, p["desc"].as_str().unwrap()) {
+		(Some(g), _) if g.desc >= 0 => {
+			// `desc` bytes, with a multi-byte character at the end where it fits
+			let n = g.desc as usize;
+			let mut t = "a".repeat(n);
+			if n >= 4 {
+				t.truncate(n - 3);
+				t.push('ナ');
+			}
+			Some(t)
+		},
+		(Some(_), _) => None,
+		(None, "direct") => {
+			let n = *[1usize, 5, 40, 200, 639].choose(rng).unwrap();
+			let mut t = rand_text(rng, n);
+			while t.len() > 639 {
+				t.pop();
+			}
+			Some(t)
+		},
+		(None, "empty") => Some(String::new()),
+		_ => None,
+	};
+	used.desc = text.as_ref().map_or(-1, |t| t.len() as i64);
+	let (amt_given, expiry_given) = match given {
+		Some(g) => (g.amt.map(|x| x as u64), g.expiry.map(|x| x as u64)),
+		None => (None, None),
+	};
+	if given.is_some() {
+		used.amt = amt_given.map(|x| x as u128);
+		used.expiry = expiry_given.map(|x| x as u128);
+	}
+	let desc = match text {
+		Some(t) if t.is_empty() && given.is_none() => Bolt11InvoiceDescription::Direct(Description::empty()),
+		Some(t) => Bolt11InvoiceDescription::Direct(Description::new(t).map_err(e)?),
+		None => Bolt11InvoiceDescription::Hash(Sha256(sha256::Hash::hash(&r32(rng)))),
 	};
 	let mut b = InvoiceBuilder::new(currency)
 		.invoice_description(desc)
@@ -1229,7 +1347,13 @@ fn build_b11(p: &Value, rng: &mut StdRng, secp: &Secp) -> Result<Bolt11Invoice, 
 		.payment_secret(PaymentSecret(r32(rng)));
 	// optional fields, in a seeded order (the builder keeps the order of the calls)
 	let mut steps: Vec<(&str, u64)> = Vec::new();
-	match p["amt"].as_str().unwrap() {
+	if let Some(a) = amt_given {
+		steps.push(("amt", a));
+	}
+	if let Some(x) = expiry_given {
+		steps.push(("expiry", x));
+	}
+	match if given.is_some() { "given" } else { p["amt"].as_str().unwrap() } {
 		"zero" => steps.push(("amt", 0)),
 		"small" => steps.push(("amt", rng.gen_range(1..=1000))),
 		"big" => {
@@ -1248,7 +1372,7 @@ fn build_b11(p: &Value, rng: &mut StdRng, secp: &Secp) -> Result<Bolt11Invoice, 
 	if p["payee"] == "explicit" {
 		steps.push(("payee", 0));
 	}
-	if p["expiry"] == "some" {
+	if p["expiry"] == "some" && given.is_none() {
 		let x = match rng.gen_range(0..5) {
 			0 => 0,
 			1 => 1,
@@ -1269,6 +1393,11 @@ fn build_b11(p: &Value, rng: &mut StdRng, secp: &Secp) -> Result<Bolt11Invoice, 
 	}
 	steps.shuffle(rng);
 	for (s, x) in steps {
+		match s {
+			"amt" => used.amt = Some(x as u128),
+			"expiry" => used.expiry = Some(x as u128),
+			_ => {},
+		}
 		b = match s {
 			"amt" => b.amount_milli_satoshis(x),
 			"payee" => b.payee_pub_key(pk),
@@ -1294,9 +1423,12 @@ fn build_b11(p: &Value, rng: &mut StdRng, secp: &Secp) -> Result<Bolt11Invoice, 
 				let hops = (0..x)
 					.map(|_| RouteHintHop {
 						src_node_id: rand_pk(rng, secp),
-						short_channel_id: rng.gen(),
-						fees: RoutingFees { base_msat: rng.gen(), proportional_millionths: rng.gen() },
-						cltv_expiry_delta: rng.gen(),
+						short_channel_id: edge(rng, u64::MAX),
+						fees: RoutingFees {
+							base_msat: edge(rng, u32::MAX as u64) as u32,
+							proportional_millionths: edge(rng, u32::MAX as u64) as u32,
+						},
+						cltv_expiry_delta: edge(rng, u16::MAX as u64) as u16,
 						htlc_minimum_msat: None,
 						htlc_maximum_msat: None,
 					})
@@ -1475,9 +1607,9 @@ fn run_b11(
 ) {
 	let mut rng = StdRng::seed_from_u64(seed ^ cx.run.wrapping_mul(0x9e37_79b9_7f4a_7c15) ^ 0xb11);
 	cx.ev(json!({"ev":"reset","part":"b11"}));
-	let inv = build_b11(pres, &mut rng, secp);
+	let (vals, inv) = build_b11(pres, None, &mut rng, secp);
 	stats.b11_cases += 1;
-	cx.ev(json!({"ev":"case","fmt":"b11","built":inv.is_ok(),"pres":pres,
+	cx.ev(json!({"ev":"case","fmt":"b11","built":inv.is_ok(),"pres":pres,"vals":vals.json(),
 		"err":inv.as_ref().err().cloned().unwrap_or_default()}));
 	let inv = match inv {
 		Ok(i) => i,
@@ -1502,6 +1634,7 @@ fn run_b11(
 	if !(parsed && equal && acc && reser) {
 		return;
 	}
+	cx.ev(json!({"ev":"exposed","vals":B11Vals::exposed_by(back.as_ref().unwrap()).json()}));
 	let payee = inv.get_payee_pub_key();
 	let raw = inv.clone().into_signed_raw().raw_invoice().clone();
 	for m in b11_mutations(&s, k, &mut rng) {
@@ -1528,6 +1661,176 @@ fn run_b11(
 		cx.ev(json!({"ev":"mut11","cls":m.cls,"pos":m.pos,"parsed":parsed,"payee_eq":payee_eq,
 			"signed_eq":signed_eq,"has_n":has_n,"class":class,"err":err}));
 	}
+}
+
+// ------------------------------------------------------------------------------------------------
+// part (iii): numeric boundaries, through the builder and through hand-assembled strings
+
+/// big-endian base-32 digits without leading zeros (0 = no digits)
+fn int_syms(mut v: u128) -> Vec<u8> {
+	let mut out = Vec::new();
+	while v != 0 {
+		out.push((v % 32) as u8);
+		v /= 32;
+	}
+	out.reverse();
+	out
+}
+
+/// bytes to 5-bit symbols / symbols to bytes, padded with zero bits
+fn regroup(input: &[u8], from: u32, to: u32) -> Vec<u8> {
+	let (mut acc, mut bits, mut out) = (0u32, 0u32, Vec::new());
+	for x in input {
+		acc = (acc << from) | *x as u32;
+		bits += from;
+		while bits >= to {
+			bits -= to;
+			out.push(((acc >> bits) & ((1 << to) - 1)) as u8);
+		}
+	}
+	if bits > 0 {
+		out.push(((acc << (to - bits)) & ((1 << to) - 1)) as u8);
+	}
+	out
+}
+
+/// BOLT-11 amount of the HRP in the shortest form: the largest multiplier that divides it
+fn amount_hrp(msat: u128) -> String {
+	let pico = msat * 10;
+	for (m, c) in [(1_000_000_000u128, "m"), (1_000_000, "u"), (1_000, "n")] {
+		if pico % m == 0 {
+			return format!("{}{}", pico / m, c);
+		}
+	}
+	format!("{}p", pico)
+}
+
+/// A BOLT-11 string written symbol by symbol: HRP, 35-bit timestamp, tagged fields, the signature
+/// of `sk` over SHA256(HRP || data padded to bytes) with its recovery id, bech32 checksum.
+fn assemble_b11(hrp: &str, ts: u64, fields: &[(u8, Vec<u8>)], sk: &SecretKey, secp: &Secp) -> String {
+	let mut data: Vec<u8> = (0..7).rev().map(|k| ((ts >> (5 * k)) & 31) as u8).collect();
+	for (tag, d) in fields {
+		data.push(*tag);
+		data.push((d.len() >> 5) as u8);
+		data.push((d.len() & 31) as u8);
+		data.extend_from_slice(d);
+	}
+	let mut pre = hrp.as_bytes().to_vec();
+	pre.extend(regroup(&data, 5, 8));
+	let msg = Message::from_digest(sha256::Hash::hash(&pre).to_byte_array());
+	let (rid, sig) = secp.sign_ecdsa_recoverable(&msg, sk).serialize_compact();
+	let mut sigb = sig.to_vec();
+	sigb.push(rid.to_i32() as u8);
+	data.extend(regroup(&sigb, 8, 5));
+	bech32_encode(hrp, &data)
+}
+
+/// Parses an assembled string (a panic is recorded and ends the run) and records what came out.
+fn parse_assembled11(
+	cx: &mut Ctx, stats: &mut Stats, s: &str, vals: &B11Vals, canon: bool, pk: &PublicKey,
+) -> bool {
+	let r = catch_unwind(AssertUnwindSafe(|| {
+		s.parse::<Bolt11Invoice>().map(|i| {
+			let reser = i.to_string() == s;
+			(reser, i.get_payee_pub_key() == *pk, B11Vals::exposed_by(&i))
+		})
+	}));
+	stats.assembled += 1;
+	match r {
+		Err(_) => {
+			stats.assembled_panics += 1;
+			cx.ev(json!({"ev":"panic","where":"assembled b11","input":s}));
+			false
+		},
+		Ok(Ok((reser, signer_eq, got))) => {
+			stats.assembled_parsed += 1;
+			cx.ev(json!({"ev":"assembled","kind":"b11","canon":canon,"parsed":true,"reser":reser,
+				"signer_eq":signer_eq,"vals":vals.json(),"got":got.json(),"err":"","len":s.len()}));
+			true
+		},
+		Ok(Err(e)) => {
+			cx.ev(json!({"ev":"assembled","kind":"b11","canon":canon,"parsed":false,"reser":false,
+				"signer_eq":false,"vals":vals.json(),
+				"got":B11Vals { ts: 0, expiry: None, cltv: 0, amt: None, desc: 0 }.json(),
+				"err":format!("{:?}", e),"len":s.len()}));
+			true
+		},
+	}
+}
+
+fn run_n11(cx: &mut Ctx, case: &Value, seed: u64, secp: &Secp, stats: &mut Stats) {
+	let mut rng = StdRng::seed_from_u64(seed ^ cx.run.wrapping_mul(0x9e37_79b9_7f4a_7c15) ^ 0x1b11);
+	cx.ev(json!({"ev":"reset","part":"n11"}));
+	let vals = B11Vals::from_json(&case["vals"]);
+	stats.n11_cases += 1;
+	// ---- through the builder (its arguments are u64)
+	if vals.fits_builder() {
+		let pres = json!({"amt":"none","desc":"direct","expiry":"none","fb":0,"routes":0,
+			"payee":"recovered","meta":"none","mpp":false});
+		let (used, inv) = build_b11(&pres, Some(&vals), &mut rng, secp);
+		cx.ev(json!({"ev":"case","fmt":"n11","built":inv.is_ok(),"pres":pres,"vals":used.json(),
+			"err":inv.as_ref().err().cloned().unwrap_or_default()}));
+		if let Ok(inv) = inv {
+			stats.n11_built += 1;
+			let s = inv.to_string();
+			let back = s.parse::<Bolt11Invoice>();
+			let (parsed, equal, acc, reser) = match &back {
+				Ok(b) => (true, *b == inv, b11_accessors(b) == b11_accessors(&inv), b.to_string() == s),
+				Err(_) => (false, false, false, false),
+			};
+			let upper = s.to_uppercase().parse::<Bolt11Invoice>().map_or(false, |b| b == inv);
+			cx.ev(json!({"ev":"roundtrip","kind":"b11","parsed":parsed,"equal":equal,"acc":acc,"reser":reser,
+				"upper_ok":upper,"len":s.len(),"err":back.as_ref().err().map(|e| format!("{:?}", e)).unwrap_or_default()}));
+			stats.roundtrips += 1;
+			if let Ok(b) = &back {
+				cx.ev(json!({"ev":"exposed","vals":B11Vals::exposed_by(b).json()}));
+			}
+		}
+	}
+	// ---- through a hand-assembled string (what 7 symbols / a 10-bit length can spell)
+	if vals.ts > MAX_TIMESTAMP as u128 || vals.desc > 639 {
+		return;
+	}
+	let sk = rand_sk(&mut rng);
+	let pk = PublicKey::from_secret_key(secp, &sk);
+	let cur = *["bc", "tb", "bcrt", "sb", "tbs"].choose(&mut rng).unwrap();
+	let hrp = format!("ln{}{}", cur, vals.amt.map_or(String::new(), amount_hrp));
+	let mut fields: Vec<(u8, Vec<u8>)> = vec![(1, regroup(&r32(&mut rng), 8, 5))];
+	if vals.desc >= 0 {
+		let mut t = "a".repeat(vals.desc as usize);
+		if vals.desc >= 3 {
+			t.truncate(vals.desc as usize - 2);
+			t.push('ü');
+		}
+		fields.push((13, regroup(t.as_bytes(), 8, 5)));
+	} else {
+		fields.push((23, regroup(&r32(&mut rng), 8, 5)));
+	}
+	let x_at = fields.len();
+	if let Some(x) = vals.expiry {
+		fields.push((6, int_syms(x)));
+	}
+	let c_at = fields.len();
+	fields.push((24, int_syms(vals.cltv)));
+	fields.push((16, regroup(&r32(&mut rng), 8, 5)));
+	fields.push((5, vec![16, 8, 0])); // features: var_onion_optin and payment_secret required
+	if rng.gen_bool(0.5) {
+		fields.swap(0, c_at); // the order of tagged fields is free
+	}
+	let s = assemble_b11(&hrp, vals.ts as u64, &fields, &sk, secp);
+	if !parse_assembled11(cx, stats, &s, &vals, true, &pk) {
+		return;
+	}
+	// the same numbers with one leading zero digit (not the shortest form: only "never panics")
+	let mut f2 = fields.clone();
+	for (tag, d) in f2.iter_mut() {
+		if *tag == 6 || *tag == 24 {
+			d.insert(0, 0);
+		}
+	}
+	let _ = x_at;
+	let s2 = assemble_b11(&hrp, vals.ts as u64, &f2, &sk, secp);
+	parse_assembled11(cx, stats, &s2, &vals, false, &pk);
 }
 
 // ------------------------------------------------------------------------------------------------
@@ -1943,6 +2246,259 @@ fn run_b12(
 }
 
 // ------------------------------------------------------------------------------------------------
+// part (iii), BOLT-12: boundary values of the numeric TLVs through the builders and through
+// hand-assembled TLV streams
+
+#[derive(Clone, Debug)]
+struct B12Vals {
+	refund: bool,
+	amt: Option<u128>,
+	qty: Option<u128>, // offers: None = one, 0 = unbounded, n = at most n; refunds: the quantity
+	aexp: Option<u128>,
+}
+impl B12Vals {
+	fn json(&self) -> Value {
+		json!({"root": if self.refund { "refund" } else { "offer" }, "amt": opt_json(self.amt),
+			"qty": opt_json(self.qty), "aexp": opt_json(self.aexp)})
+	}
+	fn of_offer(o: &Offer) -> B12Vals {
+		B12Vals {
+			refund: false,
+			amt: match o.amount() {
+				Some(lightning::offers::offer::Amount::Bitcoin { amount_msats }) => Some(amount_msats as u128),
+				_ => None,
+			},
+			qty: match o.supported_quantity() {
+				Quantity::One => None,
+				Quantity::Unbounded => Some(0),
+				Quantity::Bounded(n) => Some(n.get() as u128),
+			},
+			aexp: o.absolute_expiry().map(|d| d.as_secs() as u128),
+		}
+	}
+	fn of_refund(r: &Refund) -> B12Vals {
+		B12Vals {
+			refund: true,
+			amt: Some(r.amount_msats() as u128),
+			qty: r.quantity().map(|q| q as u128),
+			aexp: r.absolute_expiry().map(|d| d.as_secs() as u128),
+		}
+	}
+}
+
+fn assembled12_ev(
+	cx: &mut Ctx, stats: &mut Stats, kind: &str, vals: Value, zero: Value,
+	r: std::thread::Result<Option<(bool, bool, Value)>>, bytes: &[u8],
+) -> bool {
+	stats.assembled += 1;
+	match r {
+		Err(_) => {
+			let hex: String = bytes.iter().map(|b| format!("{:02x}", b)).collect();
+			stats.assembled_panics += 1;
+			cx.ev(json!({"ev":"panic","where":format!("assembled {}", kind),"input":hex}));
+			false
+		},
+		Ok(Some((reser, signer_eq, got))) => {
+			stats.assembled_parsed += 1;
+			cx.ev(json!({"ev":"assembled","kind":kind,"canon":true,"parsed":true,"reser":reser,
+				"signer_eq":signer_eq,"vals":vals,"got":got,"err":"","len":bytes.len()}));
+			true
+		},
+		Ok(None) => {
+			cx.ev(json!({"ev":"assembled","kind":kind,"canon":true,"parsed":false,"reser":false,
+				"signer_eq":false,"vals":vals,"got":zero,"err":"refused","len":bytes.len()}));
+			true
+		},
+	}
+}
+
+fn run_n12(cx: &mut Ctx, case: &Value, seed: u64, secp: &Secp, stats: &mut Stats) {
+	let mut rng = StdRng::seed_from_u64(seed ^ cx.run.wrapping_mul(0x9e37_79b9_7f4a_7c15) ^ 0x1b12);
+	cx.ev(json!({"ev":"reset","part":"n12"}));
+	let v = &case["vals"];
+	let vals = B12Vals {
+		refund: v["root"] == "refund",
+		amt: json_num(&v["amt"]),
+		qty: json_num(&v["qty"]),
+		aexp: json_num(&v["aexp"]),
+	};
+	stats.n12_cases += 1;
+	let pk = rand_pk(&mut rng, secp);
+	let m = u64::MAX as u128;
+	let fits = vals.amt.map_or(true, |x| x <= m) && vals.qty.map_or(true, |x| x <= m) && vals.aexp.map_or(true, |x| x <= m);
+	let zero = B12Vals { refund: vals.refund, amt: if vals.refund { Some(0) } else { None }, qty: None, aexp: None }.json();
+	let md: Vec<u8> = (0..rng.gen_range(1..40)).map(|_| rng.gen()).collect();
+	if !vals.refund {
+		if fits {
+			let mut b = OfferBuilder::new(pk).description("n12".to_string());
+			if let Some(a) = vals.amt {
+				b = b.amount_msats(a as u64);
+			}
+			match vals.qty {
+				None => {},
+				Some(0) => b = b.supported_quantity(Quantity::Unbounded),
+				Some(n) => b = b.supported_quantity(Quantity::Bounded(NonZeroU64::new(n as u64).unwrap())),
+			}
+			if let Some(x) = vals.aexp {
+				b = b.absolute_expiry(Duration::from_secs(x as u64));
+			}
+			let built = b.build();
+			cx.ev(json!({"ev":"case","fmt":"n12","built":built.is_ok(),"vals":vals.json(),
+				"err":built.as_ref().err().map(|e| format!("{:?}", e)).unwrap_or_default()}));
+			if let Ok(offer) = built {
+				stats.n12_built += 1;
+				let (ok, bytes) = b12_roundtrip!(cx, stats, "offer", &offer, Offer, offer_accessors, true);
+				if ok {
+					cx.ev(json!({"ev":"exposed","vals":B12Vals::of_offer(&Offer::try_from(bytes).unwrap()).json()}));
+				}
+			}
+		}
+		// hand-assembled TLV stream: description, amount, absolute_expiry, quantity_max, issuer_id
+		let mut recs: Recs = vec![(10, b"n12".to_vec())];
+		if let Some(a) = vals.amt {
+			recs.push((8, tu64(a as u64)));
+		}
+		if let Some(x) = vals.aexp {
+			recs.push((14, tu64(x as u64)));
+		}
+		if let Some(q) = vals.qty {
+			recs.push((20, tu64(q as u64)));
+		}
+		recs.push((22, pk.serialize().to_vec()));
+		recs.sort_by_key(|r| r.0);
+		if fits {
+			let bytes = tlv_ser(&recs);
+			let r = catch_unwind(AssertUnwindSafe(|| {
+				Offer::try_from(bytes.clone()).ok().map(|o| {
+					(enc(&o) == bytes, o.issuer_signing_pubkey() == Some(pk), B12Vals::of_offer(&o).json())
+				})
+			}));
+			assembled12_ev(cx, stats, "offer", vals.json(), zero, r, &bytes);
+		}
+	} else {
+		if fits {
+			let built = RefundBuilder::new(md.clone(), pk, vals.amt.unwrap() as u64).map(|mut b| {
+				b = b.description("n12".to_string());
+				if let Some(q) = vals.qty {
+					b = b.quantity(q as u64);
+				}
+				if let Some(x) = vals.aexp {
+					b = b.absolute_expiry(Duration::from_secs(x as u64));
+				}
+				b
+			});
+			let built = built.and_then(|b| b.build());
+			cx.ev(json!({"ev":"case","fmt":"n12","built":built.is_ok(),"vals":vals.json(),
+				"err":built.as_ref().err().map(|e| format!("{:?}", e)).unwrap_or_default()}));
+			if let Ok(refund) = built {
+				stats.n12_built += 1;
+				let (ok, bytes) = b12_roundtrip!(cx, stats, "refund", &refund, Refund, refund_accessors, true);
+				if ok {
+					cx.ev(json!({"ev":"exposed","vals":B12Vals::of_refund(&Refund::try_from(bytes).unwrap()).json()}));
+				}
+			}
+			// hand-assembled: payer metadata, description, absolute_expiry, amount, quantity, payer_id
+			let mut recs: Recs = vec![(0, md), (10, b"n12".to_vec()), (82, tu64(vals.amt.unwrap() as u64))];
+			if let Some(x) = vals.aexp {
+				recs.push((14, tu64(x as u64)));
+			}
+			if let Some(q) = vals.qty {
+				recs.push((86, tu64(q as u64)));
+			}
+			recs.push((88, pk.serialize().to_vec()));
+			recs.sort_by_key(|r| r.0);
+			let bytes = tlv_ser(&recs);
+			let r = catch_unwind(AssertUnwindSafe(|| {
+				Refund::try_from(bytes.clone()).ok().map(|o| {
+					(enc(&o) == bytes, o.payer_signing_pubkey() == pk, B12Vals::of_refund(&o).json())
+				})
+			}));
+			assembled12_ev(cx, stats, "refund", vals.json(), zero, r, &bytes);
+		}
+	}
+}
+
+/// created_at / relative_expiry of an invoice (for an ordinary refund), through the builder and
+/// through an edited, re-signed TLV stream
+fn run_i12(cx: &mut Ctx, case: &Value, seed: u64, secp: &Secp, stats: &mut Stats) {
+	let mut rng = StdRng::seed_from_u64(seed ^ cx.run.wrapping_mul(0x9e37_79b9_7f4a_7c15) ^ 0x1b13);
+	cx.ev(json!({"ev":"reset","part":"i12"}));
+	let created = json_num(&case["vals"]["created"]).unwrap();
+	let rexp = json_num(&case["vals"]["rexp"]);
+	stats.n12_cases += 1;
+	let vj = |c: u128, r: Option<u128>| json!({"created": num_json(c), "rexp": opt_json(r)});
+	let got_of = |i: &Bolt12Invoice| {
+		let has = tlv_parse(&enc(i)).map_or(false, |r| tlv_get(&r, 166).is_some());
+		vj(i.created_at().as_secs() as u128, if has { Some(i.relative_expiry().as_secs() as u128) } else { None })
+	};
+	let salt: u64 = rng.gen();
+	let (issuer, payer) = (party(secp, salt, 1), party(secp, salt, 2));
+	let refund = match RefundBuilder::new(vec![7; 8], payer.pk, 2_500_000).and_then(|b| b.description("i12".into()).build()) {
+		Ok(r) => r,
+		Err(e) => {
+			cx.ev(json!({"ev":"fuzz","target":"refund_builder_refused","len":0,"parsed":false,"err":format!("{:?}", e)}));
+			return;
+		},
+	};
+	let e = |e| format!("{:?}", e);
+	let build = |c: u64, r: Option<u32>, rng: &mut StdRng| -> Result<Bolt12Invoice, String> {
+		let mut b = refund
+			.respond_with_no_std(pay_paths(rng, secp, 1), PaymentHash(r32(rng)), issuer.pk, Duration::from_secs(c))
+			.map_err(e)?;
+		if let Some(r) = r {
+			b = b.relative_expiry(r);
+		}
+		sign_unsigned(b.build().map_err(e)?, &issuer.kp, secp)
+	};
+	if created <= u64::MAX as u128 && rexp.map_or(true, |r| r <= u32::MAX as u128) {
+		let built = build(created as u64, rexp.map(|r| r as u32), &mut rng);
+		cx.ev(json!({"ev":"case","fmt":"i12","built":built.is_ok(),"vals":vj(created, rexp),
+			"err":built.as_ref().err().cloned().unwrap_or_default()}));
+		if let Ok(inv) = built {
+			stats.n12_built += 1;
+			let (ok, bytes) = b12_roundtrip!(cx, stats, "refund_invoice", &inv, Bolt12Invoice, invoice_accessors, false);
+			if ok {
+				cx.ev(json!({"ev":"exposed","vals":got_of(&Bolt12Invoice::try_from(bytes).unwrap())}));
+			}
+		}
+	}
+	// an ordinary invoice whose created_at / relative_expiry records are rewritten, signed again
+	let base = match build(CREATED_AT, None, &mut rng) {
+		Ok(i) => i,
+		Err(_) => return,
+	};
+	if created > u64::MAX as u128 || rexp.map_or(false, |r| r > u64::MAX as u128) {
+		return;
+	}
+	let mut recs = tlv_parse(&enc(&base)).unwrap();
+	recs.retain(|r| !(240..=1000).contains(&r.0));
+	tlv_set(&mut recs, 164, tu64(created as u64));
+	if let Some(r) = rexp {
+		tlv_set(&mut recs, 166, tu64(r as u64));
+	}
+	let unsigned_bytes = tlv_ser(&recs);
+	let pk = issuer.pk;
+	let mut signed_bytes = unsigned_bytes.clone();
+	let r = catch_unwind(AssertUnwindSafe(|| {
+		let u = UnsignedBolt12Invoice::try_from(unsigned_bytes.clone()).ok()?;
+		let inv = sign_unsigned(u, &issuer.kp, secp).ok()?;
+		let bytes = enc(&inv);
+		let back = Bolt12Invoice::try_from(bytes.clone()).ok()?;
+		// the stream without its signature record must be the one that was assembled
+		let mut rr = tlv_parse(&enc(&back))?;
+		rr.retain(|r| !(240..=1000).contains(&r.0));
+		Some((bytes, tlv_ser(&rr) == unsigned_bytes && enc(&back) == enc(&inv), back.signing_pubkey() == pk, got_of(&back)))
+	}));
+	let r = r.map(|o| {
+		o.map(|(b, reser, signer_eq, got)| {
+			signed_bytes = b;
+			(reser, signer_eq, got)
+		})
+	});
+	assembled12_ev(cx, stats, "invoice", vj(created, rexp), vj(0, None), r, &signed_bytes);
+}
+
+// ------------------------------------------------------------------------------------------------
 // arbitrary strings and byte streams
 
 fn run_fuzz(cx: &mut Ctx, seed: u64, n: usize, corpus: &[Vec<u8>], stats: &mut Stats) {
@@ -2017,6 +2573,13 @@ struct Stats {
 	fuzz: u64,
 	sweep_bits: u64,
 	sweep_judged: u64,
+	n11_cases: u64,
+	n11_built: u64,
+	n12_cases: u64,
+	n12_built: u64,
+	assembled: u64,
+	assembled_parsed: u64,
+	assembled_panics: u64,
 	b11_mut: BTreeMap<String, u64>,
 	b12_mut: BTreeMap<String, u64>,
 }
@@ -2097,7 +2660,13 @@ fn main() {
 		let fmt = c["fmt"].as_str().unwrap().to_string();
 		let r = catch_unwind(AssertUnwindSafe(|| {
 			let mut cx = Ctx { run, log: &mut log };
-			if fmt == "b11" {
+			if fmt == "n11" {
+				run_n11(&mut cx, c, seed, &secp, &mut stats)
+			} else if fmt == "n12" {
+				run_n12(&mut cx, c, seed, &secp, &mut stats)
+			} else if fmt == "i12" {
+				run_i12(&mut cx, c, seed, &secp, &mut stats)
+			} else if fmt == "b11" {
 				n11 += 1;
 				let k = if n11 <= full { None } else { Some(muts) };
 				run_b11(&mut cx, &c["pres"], seed, k, &secp, &mut stats, &mut corpus)
@@ -2135,13 +2704,16 @@ fn main() {
 	tw.flush();
 	println!(
 		"{}",
-		json!({"runs": run, "events": tw.lines, "panics": panics,
+		json!({"runs": run, "events": tw.lines, "panics": panics + stats.assembled_panics,
 			"proto_runs": stats.proto_runs, "proto_build_failed": stats.proto_build_failed,
 			"verifies": stats.verifies, "accepts": stats.accepts,
 			"b11_cases": stats.b11_cases, "b11_built": stats.b11_built,
 			"b12_cases": stats.b12_cases, "b12_built": stats.b12_built,
 			"roundtrips": stats.roundtrips, "fuzz": stats.fuzz,
 			"sweep_bits": stats.sweep_bits, "sweep_judged": stats.sweep_judged,
+			"n11_cases": stats.n11_cases, "n11_built": stats.n11_built,
+			"n12_cases": stats.n12_cases, "n12_built": stats.n12_built,
+			"assembled": stats.assembled, "assembled_parsed": stats.assembled_parsed,
 			"b11_mut": stats.b11_mut, "b12_mut": stats.b12_mut})
 	);
 }
